@@ -183,6 +183,60 @@ def readonly_campaign(ctx, out, specs):
                     out.fail(dict(kind="readonly", spec=spec, typed=typed, op=name, k_fail=k_fail), f"[readonly-corrupt] _self_check after {name}: {e!r}")
 
 
+def unhashable_ops(tree, node):
+    """(name, thunk): mutating calls with an argument the library must refuse (an unhashable data_id or data object)"""
+    ops = [
+        ("add(data_id=[1])", lambda: node.add("N-unh", data_id=[1], **({"kind": "k"} if hasattr(node, "kind") else {}))),
+        ("add(data_id={})", lambda: node.add("N-unh", data_id={}, **({"kind": "k"} if hasattr(node, "kind") else {}))),
+        ("add([1, 2])", lambda: node.add([1, 2], **({"kind": "k"} if hasattr(node, "kind") else {}))),
+        ("set_data(data_id=[1])", lambda: node.set_data("Z-unh", data_id=[1])),
+        ("set_data(data_id=[1], with_clones=True)", lambda: node.set_data("Z-unh", data_id=[1], with_clones=True)),
+        ("set_data(data_id=[1], with_clones=False)", lambda: node.set_data("Z-unh", data_id=[1], with_clones=False)),
+        ("set_data(None, data_id={})", lambda: node.set_data(None, data_id={}, with_clones=True)),
+        ("set_data([1, 2])", lambda: node.set_data([1, 2], with_clones=True)),
+    ]
+    if not node.children and not hasattr(node, "kind"):
+        ops.append(("from_dict([{data_id: [1]}])", lambda: node.from_dict([{"data": "x-unh", "data_id": [1]}])))
+    return ops
+
+
+def unhashable_campaign(ctx, out, specs):
+    """invalid arguments outside the model's operation alphabet (unhashable ids / data): the call must raise and leave
+    the tree exactly as it was (oracle on the implementation alone, from the property text)"""
+    for spec, typed in specs:
+        probe = adapter.build(spec, ctx.pool, typed=typed)
+        n_nodes = probe.count
+        for idx in range(n_nodes):
+            for k in range(len(unhashable_ops(probe, next(iter(probe))))  + 1):
+                tree = adapter.build(spec, ctx.pool, typed=typed)
+                node = list(tree)[idx]
+                ops = unhashable_ops(tree, node)
+                if k >= len(ops):
+                    continue
+                name, thunk = ops[k]
+                before = snapshot(tree)
+                try:
+                    thunk()
+                    res = "ok"
+                except Exception as e:  # noqa
+                    res = adapter.err_class(e)
+                after = snapshot(tree)
+                out.evaluations += 1
+                out.dist["unhashable:" + name] += 1
+                out.dist["unhashable-res:" + res] += 1
+                if n_nodes >= 3:
+                    out.keys.add(core.hash_str(json.dumps([repr(spec), typed, name, idx])))
+                case = dict(kind="unhashable", spec=spec, typed=typed, op=name, node=idx)
+                if res == "ok":
+                    out.fail(case, f"[accepted] {name} on node #{idx} of {spec} was accepted")
+                elif before != after:
+                    out.fail(case, f"[refused-but-changed] {name} on node #{idx} of {spec} raised ({res}) but the tree changed")
+                try:
+                    tree._self_check()
+                except Exception as e:  # noqa
+                    out.fail(case, f"[corrupt-after-refusal] {name} on node #{idx} of {spec} raised ({res}); afterwards _self_check fails: {e!r}")
+
+
 CORPUS = [
     # remove(keep_children=True) refused because a NON-FIRST child collides with a sibling: nothing may have changed (parent links!)
     dict(cfg=dict(typed=False, hook=None, trees=2), log=[
@@ -230,11 +284,18 @@ def run(ctx):
     specs.append(([(0, [(6, []), (1, [(6, [])])]), (6, [])], False))
     specs.append(([((0, "a"), [((6, "b"), [])]), ((1, "a"), [((6, "b"), [])])], True))
     readonly_campaign(ctx, out, specs)
+    unhashable_campaign(ctx, out, [sp for sp in specs if gen.spec_size(sp[0]) >= 1][-12:] + [
+        ([(0, [(6, []), (1, [(6, [])])]), (6, [])], False), ([((0, "a"), [((6, "b"), [])]), ((1, "a"), [((6, "b"), [])])], True)])
     return out
 
 
 def replay(ctx, rp):
     case = rp["case"]
+    if case.get("kind") == "unhashable":
+        from props.c10 import tuplify_d
+        out = core.Outcome()
+        unhashable_campaign(ctx, out, [(tuplify_d(case["spec"]), case["typed"])])
+        return dict(failures=[f["what"] for f in out.oracle_failures[:5]], property_holds=not out.oracle_failures)
     if case.get("kind") == "readonly":
         from props.c10 import tuplify_d
         out = core.Outcome()
